@@ -18,6 +18,7 @@ import (
 	"fmt"
 	"math/rand"
 	"runtime"
+	"sort"
 	"strings"
 	"sync"
 	"time"
@@ -270,6 +271,9 @@ func feed(w *hx.W, class, desc string, stream []byte, withCommands bool) (alloc 
 				if m.UID == 0 && err == nil {
 					o.add("fetch-uid-zero-delivered", "UID FETCH delivered a message with UID 0")
 				}
+				if m.SeqNum == 0 {
+					o.add("fetch-seqnum-zero-delivered@UIDFetchCommand.Collect", "UID FETCH delivered a message with sequence number 0")
+				}
 				walkFetchBuffer(o, m, err, "UIDFetchCommand")
 			}
 		})
@@ -409,6 +413,8 @@ func feed(w *hx.W, class, desc string, stream []byte, withCommands bool) (alloc 
 		})
 		st := c.Store(imap.SeqSetNum(1), &imap.StoreFlags{Op: imap.StoreFlagsAdd, Flags: []imap.Flag{imap.FlagSeen}}, nil)
 		run("Store.Collect", func() { st.Collect() })
+		ua := c.Unauthenticate()
+		run("Unauthenticate.Wait", func() { ua.Wait() })
 	}
 	sEnd.Write(stream)
 	sEnd.Close()
@@ -486,7 +492,7 @@ func report(w *hx.W, class, desc string, stream []byte, o *observed) {
 // ---- generators -----------------------------------------------------------------
 
 // tags: commands are issued in a fixed order, so tags are T1..T21
-var tagNames = []string{"SELECT", "FETCH", "UIDFETCH", "LIST", "STATUS", "SEARCH", "UIDSEARCH", "SORT", "THREAD", "GETQUOTA", "GETQUOTAROOT", "GETMETADATA", "NAMESPACE", "CAPABILITY", "COPY", "MOVE", "EXPUNGE", "ENABLE", "APPEND", "STORE"}
+var tagNames = []string{"SELECT", "FETCH", "UIDFETCH", "LIST", "STATUS", "SEARCH", "UIDSEARCH", "SORT", "THREAD", "GETQUOTA", "GETQUOTAROOT", "GETMETADATA", "NAMESPACE", "CAPABILITY", "COPY", "MOVE", "EXPUNGE", "ENABLE", "APPEND", "STORE", "UNAUTHENTICATE"}
 
 func tag(name string) string {
 	for i, n := range tagNames {
@@ -833,6 +839,13 @@ func invariantProbes() map[string]string {
 		"quota-odd":              "* QUOTA \"\" (STORAGE 1)\r\n* QUOTA \"\" ()\r\n",
 		"metadata-unsolicited":   "* METADATA INBOX /a /b /c\r\n",
 		"tagged-twice":           tag("STATUS") + " OK a\r\n" + tag("STATUS") + " OK b\r\n",
+		"fetch-no-number":        "* FETCH (UID 1 FLAGS (\\Seen))\r\n",
+		"fetch-no-number-2":      "* FETCH (FLAGS (\\Seen) UID 7)\r\n* 2 FETCH (UID 8)\r\n",
+		"expunge-no-number":      "* EXPUNGE\r\n",
+		"exists-no-number":       "* EXISTS\r\n* RECENT\r\n",
+		// data that arrives after the connection went back to the not-authenticated state
+		"enabled-after-unauthenticate":     tag("ENABLE") + " OK done\r\n" + tag("UNAUTHENTICATE") + " OK back to square one\r\n* ENABLED IMAP4rev2 UTF8=ACCEPT\r\n* 3 EXISTS\r\n* FLAGS (\\Seen)\r\n* 1 FETCH (FLAGS ())\r\n* CAPABILITY IMAP4rev1\r\n",
+		"select-data-after-unauthenticate": tag("UNAUTHENTICATE") + " OK done\r\n* 2 EXISTS\r\n* OK [UIDVALIDITY 3] ok\r\n* OK [PERMANENTFLAGS (\\*)] ok\r\n" + tag("SELECT") + " OK [READ-WRITE] late\r\n* 1 EXPUNGE\r\n",
 	}
 }
 
@@ -1085,11 +1098,23 @@ func feedStartTLS(w *hx.W, name string, okLine string, trailing []byte) {
 	cEnd.Close()
 }
 
+func sortedKeys[V any](m map[string]V) []string {
+	var k []string
+	for n := range m {
+		k = append(k, n)
+	}
+	sort.Strings(k)
+	return k
+}
+
 func body(w *hx.W) {
 	rng := w.Rand("streams")
 	// 1. targeted invariant probes (with all commands completing OK afterwards)
 	i := 0
-	for name, s := range invariantProbes() {
+	// (sorted: the shards must agree on which index a probe has; map order differs per process)
+	ip := invariantProbes()
+	for _, name := range sortedKeys(ip) {
+		s := ip[name]
 		i++
 		if !w.Mine(i) {
 			continue
@@ -1106,7 +1131,9 @@ func body(w *hx.W) {
 		w.CaseStr("probe-unsolicited:" + name)
 	}
 	// 1b. malformed data that must be reported as an error
-	for name, s := range mustReject() {
+	mr := mustReject()
+	for _, name := range sortedKeys(mr) {
+		s := mr[name]
 		i++
 		if !w.Mine(i) {
 			continue
@@ -1199,7 +1226,8 @@ func body(w *hx.W) {
 	// must follow the bytes received, not the number announced
 	trunc := truncatedLiteralPositions()
 	ti := 0
-	for name, mk := range trunc {
+	for _, name := range sortedKeys(trunc) {
+		mk := trunc[name]
 		ti++
 		if !w.Mine(ti) {
 			continue
@@ -1265,7 +1293,9 @@ func body(w *hx.W) {
 	if !w.Quick() {
 		depths = append(depths, 1000000)
 	}
-	for name, gen := range deepProbes() {
+	dp := deepProbes()
+	for _, name := range sortedKeys(dp) {
+		gen := dp[name]
 		for _, d := range depths {
 			di++
 			if !w.Mine(di) {
